@@ -60,9 +60,7 @@ def headers : Nat → Bytes → Nat → Option (Nat × Bytes)
   | 0, _, _ => none
   | fuel + 1, rest, n =>
     if rest.isEmpty then none
-    else
-      let (line, next) := getLine rest
-      if line.contains 58 then headers fuel next (n + 1) else some (n, rest)
+    else if (getLine rest).1.contains 58 then headers fuel (getLine rest).2 (n + 1) else some (n, rest)
 
 inductive Step where
   | fail                                    -- `return nil, data`
@@ -70,38 +68,44 @@ inductive Step where
   | retry (rest : Bytes)                    -- `continue`
   deriving Repr, DecidableEq
 
+/-- the tail of one pass, from the END line on: `endIndex` = where the base64 text stops, `endTrailerIndex` = where
+    the label of the END line starts -/
+def finish (typeLine r3 : Bytes) (endIndex endTrailerIndex : Nat) : Step :=
+  let endTrailer := r3.drop endTrailerIndex
+  let endTrailerLen := typeLine.length + sDashes.length
+  if endTrailer.length < endTrailerLen then .retry r3
+  else if !(typeLine.isPrefixOf (endTrailer.take endTrailerLen)) || !(endsWith (endTrailer.take endTrailerLen) sDashes) then .retry r3
+  else if !(getLine (endTrailer.drop endTrailerLen)).1.isEmpty then .retry r3
+  else
+    match Base64.goDecode .std (removeST (r3.take endIndex)) with
+    | none => .retry r3
+    | some body => .done ⟨typeLine, body⟩ (getLine (r3.drop (endIndex + sNlEnd.length - 1))).2
+
+/-- where the END line is: directly at `r3` when there were no headers, else the first "\n-----END " -/
+def findEnd (nh : Nat) (r3 : Bytes) : Option (Nat × Nat) :=
+  if nh = 0 ∧ sEnd.isPrefixOf r3 then some (0, sEnd.length)
+  else (index sNlEnd r3).map fun i => (i, i + sNlEnd.length)
+
+/-- the part of one pass after the BEGIN line: headers, END line, body -/
+def afterBegin (typeLine r2 : Bytes) : Step :=
+  match headers (r2.length + 1) r2 0 with
+  | none => .fail
+  | some (nh, r3) =>
+    match findEnd nh r3 with
+    | none => .retry r3
+    | some (endIndex, endTrailerIndex) => finish typeLine r3 endIndex endTrailerIndex
+
+/-- the start of one pass: the text after the next "-----BEGIN " (at the very start, or after a newline) -/
+def findBegin (rest : Bytes) : Option Bytes :=
+  if sBegin.isPrefixOf rest then some (rest.drop sBegin.length) else cutAfter sNlBegin rest
+
 /-- one pass of the `for` loop of `Decode` on the current `rest` -/
 def step (rest : Bytes) : Step :=
-  let r1? : Option Bytes :=
-    if sBegin.isPrefixOf rest then some (rest.drop sBegin.length) else cutAfter sNlBegin rest
-  match r1? with
+  match findBegin rest with
   | none => .fail
   | some r1 =>
-    let (typeLine0, r2) := getLine r1
-    if !endsWith typeLine0 sDashes then .retry r2
-    else
-      let typeLine := typeLine0.take (typeLine0.length - sDashes.length)
-      match headers (r2.length + 1) r2 0 with
-      | none => .fail
-      | some (nh, r3) =>
-        let ends : Option (Nat × Nat) :=
-          if nh = 0 ∧ sEnd.isPrefixOf r3 then some (0, sEnd.length)
-          else (index sNlEnd r3).map fun i => (i, i + sNlEnd.length)
-        match ends with
-        | none => .retry r3
-        | some (endIndex, endTrailerIndex) =>
-          let endTrailer := r3.drop endTrailerIndex
-          let endTrailerLen := typeLine.length + sDashes.length
-          if endTrailer.length < endTrailerLen then .retry r3
-          else
-            let restOfEndLine := endTrailer.drop endTrailerLen
-            let endTrailer := endTrailer.take endTrailerLen
-            if !(typeLine.isPrefixOf endTrailer) || !(endsWith endTrailer sDashes) then .retry r3
-            else if !(getLine restOfEndLine).1.isEmpty then .retry r3
-            else
-              match Base64.goDecode .std (removeST (r3.take endIndex)) with
-              | none => .retry r3
-              | some body => .done ⟨typeLine, body⟩ (getLine (r3.drop (endIndex + sNlEnd.length - 1))).2
+    if !endsWith (getLine r1).1 sDashes then .retry (getLine r1).2
+    else afterBegin ((getLine r1).1.take ((getLine r1).1.length - sDashes.length)) (getLine r1).2
 
 /-- the loop; the fuel is the length of the input plus one and is never exhausted (`decode_fuel`) -/
 def loop : Nat → Bytes → Option (Containers.Block × Bytes)
